@@ -229,6 +229,8 @@ def wellformed(rng, tier):
     pmts.append(b"\x00" + T.pmt_section([(0x1B, 0x65, [(0x05, b"CUEI"), (0xE9, bytes([0x0F, 1, 0, 1]))]),
                                           (0x0F, 0x66, [(0x0A, b"eng\x00"), (0x0E, b"\xc0\x04\xb0")]),
                                           (0x86, 0x67, [(0x05, b"CUEI")])], pinfo=[(0x05, b"CUEI")]) + b"\xff" * 2)
+    # descriptor tags whose Format() branches nothing else reaches (bin/gocover): audio stream, Dolby Digital, AVC video
+    pmts.append(b"\x00" + T.pmt_section([(0x81, 0x68, [(0x03, b"\x00"), (0x0C, b"\x01"), (0x28, b"\x64\x00\x1f\x3f")])]) + b"\xff")
     pats = [b"\x00" + T.pat_section([(i + 1, PMT_PID + i) for i in range(n)]) + b"\xff" * 2 for n in (1, 3, 40)]
     sigs = [sctelib.g_signal(rng, pf=0) for _ in range(4 if quick else 20)]
     # foreign (non-segmentation) descriptors that are NOT adjacent: avail / segmentation / DTMF-like orders, so that a
